@@ -617,17 +617,21 @@ func bfs(lg *sim.Log, run string, root, par int, w0 *World, acts []Act, depth, m
 // action instances below (execute, blocks before / after the cool-off end, V1 price update, withdraw in the cool-off,
 // redemption, late bids) up to `depth`.
 func exploreEsm(lg *sim.Log, seed int64, depth, maxNodes int, withStable bool) {
-	w0 := Setup(exploreConfig())
+	cfg := exploreConfig()
 	run := fmt.Sprintf("exploreesm:%d", seed)
-	if !withStable { // second variant: no stable-mint vault (the shutdown stages are then free of KF-C01-ESM-1)
+	if !withStable { // second variant: no stable-mint vault (the shutdown stages are then free of KF-C01-ESM-1), vaults carry a closing fee
 		run = fmt.Sprintf("exploreesmb:%d", seed)
+		cfg.CloseFee = fr(1, 20)
 	}
+	w0 := Setup(cfg)
+	p4 := w0.Prods[3].ID
 	root := rootNode(lg, w0, run)
 	p1, p2, p3 := w0.Prods[0].ID, w0.Prods[1].ID, w0.Prods[2].ID
 	par := root
 	for _, a := range []Act{
 		{A: "Create", U: "u1", P: p1, X: 30, Y: 40}, {A: "Create", U: "u2", P: p1, X: 15, Y: 20}, {A: "Create", U: "u1", P: p2, X: 20, Y: 30},
-		{A: "Create", U: "u2", P: p2, X: 40, Y: 30}, {A: "SCreate", U: "u2", P: p3, X: 20},
+		{A: "Create", U: "u2", P: p2, X: 40, Y: 30}, {A: "Create", U: "u1", P: p4, X: 60, Y: 20}, // two healthy vaults for the redemption set-up
+		{A: "SCreate", U: "u2", P: p3, X: 20},
 		{A: "Price", D: "ucm", Y: 1, On: true}, {A: "Price", D: "uat", Y: 2, On: true},
 		{A: "V1Liquidate", U: "u2", V: 1}, {A: "Liquidate", U: "u1", V: 2}, {A: "V1Liquidate", U: "u2", V: 3},
 		// V1 auction 1 stays below the principal (close-out re-opens the vault), V1 auction 2 collects more than the principal but less than the target (close-out hands the rest to the esm account)
